@@ -81,6 +81,12 @@ def st_ImportFrom(ip, s, st):
 
 
 def st_FunctionDef(ip, s, st):
+    if ip.c is not None and st.depth == 0:
+        # a nested def that has a contract of its own (qualname Outer.inner) is called through that contract
+        k = ip.contracts.by_key.get((ip.c.file, ip.c.qual + "." + s.name))
+        if k is not None and not k.inline:
+            st.env[s.name] = Fun("contract", contract=k)
+            return [("next", st, None)]
     f = Fun("def", node=s, env=st.env)     # late binding: the closure sees the live environment dict snapshot
     f.env = dict(st.env)
     st.env[s.name] = f
@@ -214,6 +220,9 @@ def store_item(ip, s, base, idx, v):
     from .builtins_ import elem_term
     if isinstance(base, Ref):
         cell = s.heap[base.cid]
+        if not isinstance(cell, ValCell):
+            from .dicts import note_store
+            note_store(ip, s, base, v)          # (val_store does it for dictionaries)
         if isinstance(cell, LstCell):
             t = ip.deref(s, base)
             n = ip.reg.l_len(t)
@@ -766,7 +775,13 @@ def havoc_loop(ip, node, h, spec, body_nodes):
         elif n in spec.ghost:
             h.env[n] = ip.make(spec.ghost[n], n, h)
     if yields and "out" in h.env:
-        havoc_value(ip, h, h.env["out"], "out")
+        if isinstance(h.heap[h.env["out"].cid], PyListCell):
+            # heterogeneous yields (yields="Any"): what was yielded in earlier iterations is not tracked across the
+            # loop head; contracts of such generators speak about each yield (`yielded`), not about `out`
+            h.heap[h.env["out"].cid] = PyListCell([])
+            h.notes["out_untracked"] = True
+        else:
+            havoc_value(ip, h, h.env["out"], "out")
     if elem_state and "$elst" in h.env:
         h.env["$elst"] = Opaque(ip.reg.new("elst", "(Array Obj St)"))
     for extra in (spec.havoc or []):
